@@ -99,7 +99,6 @@ func sequences(alpha []int, maxLen int) [][]int {
 	return res
 }
 
-
 // ---- batched driver ---------------------------------------------------------
 //
 // Building one Go program per grammar is dominated by the link step.  The
